@@ -104,6 +104,34 @@ def check_case(case, ctx):
                 elif rel and 0 <= s and off + e <= m.end() and m.group(0)[s:e] != g:
                     # (a group captured inside a lookaround may lie outside the match; only then can the match not be sliced)
                     violation('slice_identity', case, f'{what} on {t!r}: reported ({g!r},{s},{e}) relative to the match {m.group(0)!r}', ctx)
+    # interleaved generators: every iterate_* call is an independent computation, however the caller advances them
+    if case.get('lockstep'):
+        t = pat.subject_texts(case['tree'], case['tseed'], case.get('xt', ()))[0:3][-1]
+        combos = [(True, True), (True, False), (False, True), (False, False)]
+        its = [(a, b, p.iterate_captures_and_pos(t, a, b), p.iterate_named_captures_and_pos(t, a, b)) for a, b in combos]
+        outs = [([], []) for _ in its]
+        alive = True
+        k = 0
+        while alive:
+            alive = False
+            order = its if k % 2 == 0 else its[::-1]
+            for idx, (a, b, it1, it2) in enumerate(order):
+                real = its.index((a, b, it1, it2))
+                for which, it in ((0, it1), (1, it2)):
+                    try:
+                        outs[real][which].append(next(it))
+                        alive = True
+                    except StopIteration:
+                        pass
+                if k % 3 == 1:
+                    p.split_by_capture(t, not a)          # an unrelated call on the same object in between
+            k += 1
+        for (a, b, _, _), (o1, o2) in zip(its, outs):
+            _, caps_pos, _, named_pos = expected(rx, t, a, b)
+            if o1 != caps_pos or o2 != named_pos:
+                violation('interleaved_iterators', case, f'{what}: iterate_(named_)captures_and_pos({t!r}, include_empty={a}, relative_to_match={b}) '
+                          f'advanced in lock-step with three other iterators gave {o1!r} / {o2!r}; expected {caps_pos!r} / {named_pos!r}', ctx)
+        ctx.count('lockstep_cases')
     if unnamed_before_named:
         ctx.count('unnamed_group_precedes_named')
     nontrivial = anymatch and (interesting or unnamed_before_named)
@@ -147,7 +175,7 @@ def layout_strategy():
 
 def strategy(spec, ctx):
     if ctx.shard_index % 2 == 0:
-        return st.fixed_dictionaries({'tree': layout_strategy(), 'tseed': st.integers(0, 2 ** 16), 'state': st.sampled_from(pat.STATES), 'big': st.sampled_from([0, 0, 0, 40, 400]),
+        return st.fixed_dictionaries({'tree': layout_strategy(), 'tseed': st.integers(0, 2 ** 16), 'state': st.sampled_from(pat.STATES), 'big': st.sampled_from([0, 0, 0, 40, 400]), 'lockstep': st.booleans(),
                                       'include_empty': st.booleans(), 'relative': st.booleans()})
     feats = ['cap', 'cap', 'cap', 'cat', 'alt', 'q', 'grp', 'cls', 'strarg', 'look', 'enc']
     if ctx.shard_index % 3 == 1:
@@ -158,6 +186,7 @@ def strategy(spec, ctx):
         'include_empty': st.booleans(),
         'relative': st.booleans(),
         'state': st.sampled_from(pat.STATES),
+        'lockstep': st.sampled_from([False, False, True]),
     })
 
 
